@@ -225,11 +225,11 @@ def run(ctx):
     q = ctx.quick
     args = [("static",)]
     for n in range(2, 7):
-        k = (3 if n <= 5 else 1) if q else (4 if n <= 5 else 3)
+        k = (3 if n <= 5 else 1) if q else (12 if n <= 5 else 8)
         for chunk in fw.split(members.orbit_reps(n), {2: 1, 3: 1, 4: 2, 5: 12, 6: 96}[n]):
             args.append(("members", n, chunk, k, ctx.seed, ctx.deadline))
     for i in range(16):
-        args.append(("measure", ctx.seed * 1000 + i, 12 if q else 250, ctx.deadline))
+        args.append(("measure", ctx.seed * 1000 + i, 12 if q else 1200, ctx.deadline))
     args.sort(key=lambda a: (0 if a[0] == "members" else 1, -(a[1] if a[0] == "members" else 0)))
     rep = fw.run_shards(ctx, "props.c02", "shard", args)
     rep.extra["exhaustive"] = False
